@@ -395,7 +395,9 @@ func (vlog *valueLog) rewrite(bucket uint32, fid uint32) error {
 
 		ne := kv.EntryPool.Get().(*kv.Entry)
 		ne.IncrRef()
-		ne.Meta = 0
+		// The record keeps its meta byte (user meta, delete marker); only the pointer bit is
+		// decided anew when the copy goes through the write path.
+		ne.Meta = e.Meta &^ kv.BitValuePointer
 		ne.ExpiresAt = e.ExpiresAt
 		ne.Key = append(ne.Key[:0], e.Key...)
 		ne.Value = append(ne.Value[:0], e.Value...)
